@@ -794,11 +794,16 @@ impl TypeLayout {
         let me = self.get_type_recursively();
 
         match me {
-            TypeLayout::Class(..) => false,
+            TypeLayout::Class(..) | TypeLayout::ClassSelf(..) => false,
             TypeLayout::Function(..) => false,
             TypeLayout::Module(..) => false,
+            // the interpreter has no comparison of maps
+            TypeLayout::Map(..) => false,
             TypeLayout::ValidIndexes(..) => unreachable!(),
             TypeLayout::Void => false,
+            // an optional or an alias compares like the type it stands for
+            TypeLayout::Optional(Some(x)) => x.supports_equ(),
+            TypeLayout::Alias(_, x) => x.supports_equ(),
             _ => true,
         }
     }
@@ -1179,7 +1184,8 @@ impl TypeLayout {
                                 list_param.into()
                             ))
                         }
-                        "index_of" => {
+                        // searching compares elements: only for element types that can be compared
+                        "index_of" if list_type.supports_equ() => {
                             let return_type = TypeLayout::int().optional_of();
                             Some(new_assoc_function!(vec![list_type], return_type.into()))
                         }
